@@ -1,6 +1,6 @@
 (* C03 -- memoised values are never stale, for all histories.  Theorems only. *)
 From Coq Require Import String List ZArith Bool.
-From LBG Require Import Base QGeom ListCyc G0_vec G1_shapes G2_inter G3_poly C02_kernels C01_area Cache X_xfer C03_laws C03_polygon.
+From LBG Require Import Base QGeom ListCyc G0_vec G1_shapes G2_inter G3_poly C02_kernels C01_area Cache X_xfer C03_laws C03_polygon A_audit C14_pure.
 Import ListNotations.
 
 (* generic: with sound steps, after ANY history (any length) the observed value is the fresh value *)
@@ -32,3 +32,9 @@ Theorem C03_reverse_must_negate : forall p, ~ (shoelace2 (pg_vertices p) == 0)%Q
   ~ sound Polygon2R Q fresh_area Qeq {| sf := Polygon2D_reverse; sg := fun o => o |}.
 Proof. exact reverse_copy_unsound. Qed.
 Print Assumptions C03_reverse_must_negate.
+
+(* a memo slot of the receiver is only ever filled by a member without parameters (properties and their private helpers): what it holds
+   is a function of the defining data alone, never of the arguments of some earlier call (generated audit, see gen/A_audit.v) *)
+Theorem C03_memo_slots_are_filled_only_by_parameter_free_members : receiver_writes_in_parameterised_members = [].
+Proof. exact no_parameterised_member_stores_on_its_receiver. Qed.
+Print Assumptions C03_memo_slots_are_filled_only_by_parameter_free_members.
